@@ -184,7 +184,7 @@ def gen_values(r, dt, n):
     return vals
 
 
-def gen_case(r, cid, size):
+def gen_case(r, cid, size, force_pair=None, special=None):
     region = r.choice(["npole", "spole", "antimeridian", "equator0", "europe", "random"])
     polar = region in ("npole", "spole")
     centre = {"npole": (r.uniform(-180, 180), 90.0 - r.choice([0.0, 0.5, 3.0])),
@@ -195,6 +195,7 @@ def gen_case(r, cid, size):
     half = r.choice([2e4, 3e5, 3e5, 1.5e6])
     smax, tmax = size
     pair = r.choice(["swath->area", "swath->area", "area->area", "area->area", "swath->swath", "area->swath", "swath1d->area"])
+    pair = force_pair or pair
     # ---- source
     if pair.startswith("swath1d"):
         s_shape = [r.randint(1, smax)]
@@ -234,6 +235,13 @@ def gen_case(r, cid, size):
     for s in s_shape:
         S *= s
     T = th * tw
+    if special == "empty_source":          # no valid source pixel at all
+        src["lons"] = [r.choice(BAD_LON) for _ in range(S)]
+        src["tags"] = ["all_invalid"]
+    elif special == "one_valid_source":
+        keep = r.randrange(S)
+        src["lons"] = [x if k == keep else 1e30 for k, x in enumerate(src["lons"])]
+        src["lons"][keep], src["lats"][keep] = centre[0], max(-90.0, min(90.0, centre[1]))
     # ---- radius: relative to the source spacing
     spacing = 2 * half / max(1.0, math.sqrt(S))
     u = r.random()
@@ -289,7 +297,10 @@ def gen_case(r, cid, size):
             "data": {"dtype": dt, "dims": dims, "shape": shape, "values": values, "chunks": chunk_tuple(r, shape, 60), "coords": coords},
             "mask": mask, "mask_chunks": mask_chunks, "future_mask": future_mask, "attrs": attrs,
             "tgt_chunks": [chunk_tuple(r, [th, tw], 80) for _ in range(2)]}
-    meta = {"region": region, "pair": pair + ("/samegrid" if identical else ""), "radius": rk, "dtype": dt, "layout": lay, "mask": mk,
+    if special == "one_valid_source":
+        radius, rk = 1e8, "huge"
+        case["radius"] = radius
+    meta = {"region": region, "pair": pair + ("/samegrid" if identical else "") + ("/" + special if special else ""), "radius": rk, "dtype": dt, "layout": lay, "mask": mk,
             "future_mask": future_mask, "nan_data": nan_data, "S": S, "T": T, "s_shape": s_shape, "t_shape": [th, tw],
             "lead": [n for _, n in lead], "trail": [n for _, n in trail], "s_dims": list(s_dims)}
     return case, meta
@@ -501,15 +512,20 @@ def run(ctx):
                 "coordinates, data, mask and target, each run under PYTROLL_CHUNK_SIZE in {1,2,3,7,4096} (cost-capped for small chunk "
                 "sizes); non-trivial = at least one target pixel receives a source value AND more than one block is assembled or "
                 "a mask / extra dim / invalid pixel is present; distinct = distinct (case, chunk size, resampler, chunking)")
-    ncase = ctx.n(44, 420)
+    ncase = ctx.n(40, 400)
     sizes = [(30, 24), (60, 40), (120, 80), (400, 300)]
     cases, metas = [], {}
     for cid in range(ncase):
         size = sizes[cid % 4] if cid % 11 else (400, 300)
-        c, m = gen_case(r, cid, size)
+        if cid % 40 == 1:
+            c, m = gen_case(r, cid, (30, 24), force_pair="swath->area", special="empty_source")
+        elif cid % 40 == 2:
+            c, m = gen_case(r, cid, (30, 24), force_pair=r.choice(["swath->area", "swath->swath"]), special="one_valid_source")
+        else:
+            c, m = gen_case(r, cid, size)
         cases.append(c)
         metas[cid] = m
-    budget = ctx.n(2500, 6000)
+    budget = ctx.n(1800, 6000)
     per_cs = {}
     for cs in CHUNK_SIZES:
         sel = []
@@ -646,7 +662,7 @@ def judge_case(ctx, case, meta, per_cs, coq):
                         L, Tr = geo_layout(meta)
                         for l in range(L):
                             for t in range(th * tw):
-                                if not unique_nearest(tr, t):
+                                if not unique_nearest(tr, t) or ("voi" in rref and bool(rref["voi"][t]) != tr.valid_out[t]):
                                     continue
                                 for c in range(Tr):
                                     j = (l * th * tw + t) * Tr + c
@@ -755,7 +771,7 @@ class CoqCases:
                   ("dims", "chk_dims", self.dims, "dims_bookkeeping")]
         texts = []
         for short, chk, items, what in groups:
-            per = 60 if short in ("gat", "npy") else 150
+            per = 30 if short in ("gat", "npy") else 100
             for k in range(0, len(items), per):
                 part = items[k:k + per]
                 name = "c05_%s_%03d" % (short, k // per)
